@@ -5,3 +5,39 @@ TB = "numpy, scipy.sparse/SuperLU, Hypothesis and CPython are trusted; tolerance
 reg("C05", "differential testing on a complete basis of fields (Hypothesis-generated grids/coefficients)",
     "Generated-input search: for each generated grid/coefficient case the matrix terms and the explicit chain are compared on the complete canonical basis of cell arrays (ghosts included), so each case decides the identity for every field; TVD identities against an independently reconstructed limited flux. Exploration over grids, spacings and sign patterns - no proof of absence.",
     TB, "DESIGN.md 3 C05")
+reg("C01", "generated-input search against a boundary-flux reference (complete basis of fields) + solver-level invariant",
+    "Operator level: volume-weighted column sums of every term matrix vs the oracle's boundary-face flux functional, for every basis field, on generated grids/coefficients (closed and open); solver level: domainIntegral over implicit/explicit steps of generated closed and open problems. Exploration, not proof.",
+    TB + "; SphericalGrid3D checked under the discretisation's measure (K1); periodic axes with equal end cells (K2), zero seam velocity for upwind (K7)", "DESIGN.md 3 C01")
+reg("C03", "generated-input search against an independent ghost-cell reference model + metamorphic scaling",
+    "Ghost layer, plot profile and boundary rows compared with an independent reference Robin/periodic relation after construction, edit+apply_BCs, solvePDE and solveExplicitPDE on generated BC combinations; invariance under scaling (a,b,c). Exploration.",
+    TB + "; only well-posed Robin coefficients generated; K2 residual on unequal-ended periodic axes attributed to the known finding", "DESIGN.md 3 C03")
+reg("C04", "differential testing: harness-assembled system and own solve vs solvePDE / solveMatrixPDE / recording external solver",
+    "For generated term lists (kinds, signs, scalings, order) the harness accumulates the system itself and compares stored values, the system handed to an external solver, solveMatrixPDE, row residuals, interior-row contract of every builder, affinity in data. Exploration.",
+    TB, "DESIGN.md 3 C04")
+reg("C06", "generated-input search: operator applied to constants, steady uniform state in discretely divergence-free flow",
+    "Constants through diffusion/advection/TVD/means on generated grids and velocities; uniform state in stream-function velocity fields under all schemes stays uniform for any dt; source-only solve gives gamma/beta. Exploration.",
+    TB, "DESIGN.md 3 C06")
+reg("C07", "generated-input search with a validity predicate (range of values) + M-matrix structure of the eliminated step matrix",
+    "Generated problems (contrast to 1e6, zeros in D, dt over 8 decades, Dirichlet/no-flux/periodic) must keep every value within the range of previous values and Dirichlet data; the ghost-eliminated matrix is checked for non-positive off-diagonals and non-negative row sums. Exploration.",
+    TB + "; periodic axes with equal end cells (K2)", "DESIGN.md 3 C07")
+reg("C08", "metamorphic / differential testing between paired grids (lift, permute, mirror, cyclic shift)",
+    "A generated low-dimensional problem is solved on its grid and on the higher-dimensional grid with a redundant axis (9 embeddings + two-step lifts), or permuted / mirrored / cyclically shifted on Cartesian grids; solutions must correspond incl. boundary values. Exploration.",
+    TB + "; shift asserted for diffusion/central only (K7)", "DESIGN.md 3 C08")
+reg("C10", "generated-input search against closed-form geometry (per cell)",
+    "dims, faces, centres, sizes incl. ghost sizes, both constructor forms, per-cell volumes, totals, label reachability against closed forms on generated faces (ratios to 1e4, partial angles, offset origin). Exploration; K1 reported as known finding.",
+    TB, "DESIGN.md 3 C10")
+reg("C11", "generated-input search against reference mean formulas + bounds/ordering/locality predicates + 1D/2D/3D differential",
+    "All five means compared with reference formulas of the two adjacent cells, bounds, ordering, exactness on linear fields, donor rule, independence from edge ghosts, agreement of the 1D loop with the vectorised 2D/3D code incl. zeros. Exploration.",
+    TB, "DESIGN.md 3 C11")
+reg("C12", "generated-input search with algebraic identities and derived bounds (backward Euler theorems)",
+    "Residual identity per cell, steady state as fixed point for any dt/alpha, dt->inf and dt->0 bounds from the dense eliminated operator, explicit update and purity, implicit-explicit O(dt^2) bound and leading term, dt over 12 decades. Exploration.",
+    TB + "; dense inverse of the small eliminated operator (numpy.linalg) trusted", "DESIGN.md 3 C12")
+reg("C13", "bounded-exhaustive enumeration (names x singular rationals x powers of ten; all small integer fields) + Hypothesis floats, exact rational oracle",
+    "Limiter values against published closed forms in exact rational arithmetic; totality, psi(1)=1, TVD bounds, clipping, elementwise/shape behaviour, unknown-name fallback; TVD correction finite on ALL integer fields {-2..2}^(N+2), N<=3 (exhaustive) and generated 2-D/3-D fields.",
+    "Exact reference via fractions.Fraction; numpy trusted; |r|<=1e100", "DESIGN.md 3 C13")
+reg("C16", "bounded-exhaustive enumeration of the request matrix against an expected-outcome table from the docs + generated valid requests",
+    "Complete enumeration of class x label x object x get/set, component labels, periodic-axis subsets x flag choice, constructor arities, shape families, bad coefficient/term objects; generated valid constructor forms / term kinds on grids with N>=1 must not raise.",
+    "Expected outcomes transcribed from docs/user_guide/meshes.md and docstrings", "DESIGN.md 3 C16")
+reg("C17", "metamorphic testing under unit rescaling (L,T,K over +-6 decades) + term-level linearity",
+    "A generated problem and its rescaled twin must give solutions related by exactly K (1e-9); homogeneity/additivity of every term in its coefficient field. Exploration; K4 reported as known finding.",
+    TB + "; cases with non-zero gradients below 1e-12 excluded for TVD (K4), counted", "DESIGN.md 3 C17")
